@@ -857,6 +857,229 @@ Qed.
 
 (* the hypothesis about helpers is needed: a desired tmpfs on the directory of a still-needed writable mimic is
    neither mounted nor kept *)
+(* ------------------------------------------------------------------ nothing beneath an unmounted entry is kept *)
+
+Lemma isort_sorted_pair : forall {A} (lt : A -> A -> bool),
+  (forall a b, lt a b = true -> lt b a = false) ->
+  (forall a b c, lt a b = false -> lt b c = false -> lt a c = false) ->
+  forall l a b, precedes a b (isort lt l) -> lt b a = false.
+Proof.
+  intros A lt asym negtrans l a b H. unfold isort in H. apply precedes_rev in H. rewrite rev_involutive in H.
+  eapply desc_precedes; [exact (fold_ins_desc lt asym negtrans l [] I) | exact H].
+Qed.
+
+Definition rk (e : entry) : N := if is_overname e then 0 else 1.
+
+Lemma less_overname_rank : forall a b,
+  less_overname a b = (rk a <? rk b) || ((rk a =? rk b) && dir_lt a b).
+Proof.
+  intros a b. unfold less_overname, rk.
+  destruct (beq (x_origin a) (x_origin b)) eqn:E; cbn [negb].
+  - apply beq_eq in E. unfold is_overname. rewrite E. destruct (beq (x_origin b) s_overname); reflexivity.
+  - destruct (is_overname a) eqn:Oa.
+    + destruct (is_overname b) eqn:Ob; [|reflexivity].
+      exfalso. unfold is_overname in *. apply beq_eq in Oa, Ob. rewrite Oa, Ob, beq_refl in E. discriminate.
+    + destruct (is_overname b); reflexivity.
+Qed.
+
+Lemma less_overname_asym : forall a b, less_overname a b = true -> less_overname b a = false.
+Proof.
+  intros a b. rewrite !less_overname_rank. unfold dir_lt. intro H.
+  destruct (rk a <? rk b) eqn:E1.
+  - assert (rk b <? rk a = false) as -> by lia. assert (rk b =? rk a = false) as -> by lia. reflexivity.
+  - cbn [orb] in H. apply andb_true_iff in H as [H1 H2].
+    assert (rk b <? rk a = false) as -> by lia. rewrite (blt_asym _ _ H2). apply andb_false_r.
+Qed.
+
+Lemma less_overname_negtrans : forall a b c, less_overname a b = false -> less_overname b c = false -> less_overname a c = false.
+Proof.
+  intros a b c. rewrite !less_overname_rank. unfold dir_lt. intros H1 H2.
+  apply orb_false_iff in H1 as [A1 A2]. apply orb_false_iff in H2 as [B1 B2].
+  apply orb_false_iff. split; [lia|].
+  destruct (rk a =? rk c) eqn:E; [|reflexivity]. cbn [andb].
+  assert (rk a =? rk b = true) as Eab by lia. assert (rk b =? rk c = true) as Ebc by lia.
+  rewrite Eab in A2. rewrite Ebc in B2. cbn [andb] in *. eapply blt_negtrans; eassumption.
+Qed.
+
+(* what lies between a string and an extension of it, in the lexicographic order, starts with that string *)
+Lemma blt_interval_prefix : forall P x r, blt x P = false -> blt (P ++ r) x = false -> has_prefix P x = true.
+Proof.
+  induction P as [|a P IH]; intros x r H1 H2; [reflexivity|].
+  destruct x as [|b x]; [discriminate|]. cbn [app blt has_prefix] in *.
+  destruct (b <? a) eqn:E1; [discriminate|]. destruct (a <? b) eqn:E2; [discriminate|].
+  assert (a =? b = true) as -> by lia. cbn [andb]. eapply IH; eassumption.
+Qed.
+
+Lemma has_prefix_app : forall a r, has_prefix a (a ++ r) = true.
+Proof. induction a as [|x a IH]; intro r; [reflexivity|]. cbn [app has_prefix]. rewrite N.eqb_refl. apply IH. Qed.
+
+Lemma has_prefix_trans : forall a b c, has_prefix a b = true -> has_prefix b c = true -> has_prefix a c = true.
+Proof.
+  intros a b c H1 H2. apply has_prefix_split in H1 as (r1 & ->). apply has_prefix_split in H2 as (r2 & ->).
+  rewrite <- app_assoc. apply has_prefix_app.
+Qed.
+
+Lemma with_slash_shape : forall d, exists X, with_slash d = X ++ [slash] /\ (d = X \/ d = X ++ [slash]).
+Proof.
+  intro d. unfold with_slash, has_suffix_slash. destruct (rev d) as [|c r] eqn:E.
+  - exists d. auto.
+  - destruct (c =? slash) eqn:C.
+    + apply N.eqb_eq in C. subst c. exists (rev r).
+      assert (d = rev r ++ [slash]) as -> by (rewrite <- (rev_involutive d), E; reflexivity). auto.
+    + exists d. auto.
+Qed.
+
+Lemma dir_prefix_of_key : forall d, has_prefix d (with_slash d) = true.
+Proof.
+  intro d. destruct (with_slash_shape d) as (X & -> & [-> | ->]); [apply has_prefix_app|].
+  rewrite <- (app_nil_r (X ++ [slash])) at 2. apply has_prefix_app.
+Qed.
+
+(* a key that starts with another key and differs from it belongs to a directory beneath the other one *)
+Lemma key_prefix_beneath : forall P d, (exists P', P = P' ++ [slash]) -> has_prefix P (with_slash d) = true -> P <> with_slash d ->
+  has_prefix P d = true.
+Proof.
+  intros P d (P' & EP) H Hne. destruct (with_slash_shape d) as (X & E & [-> | ->]).
+  - rewrite E in *. apply has_prefix_split in H as (r & Hr).
+    destruct (exists_last (l := r)) as (r' & z & ->).
+    { intro; subst r. rewrite app_nil_r in Hr. congruence. }
+    rewrite app_assoc in Hr. apply app_inj_tail in Hr as [-> _]. apply has_prefix_app.
+  - rewrite E in H. exact H.
+Qed.
+
+Fixpoint skip_after (des : list entry) (ids : list bytes) (skip : bytes) (l : list entry) : bytes :=
+  match l with
+  | [] => skip
+  | c :: r =>
+      if negb (is_nil_b skip) && has_prefix skip (e_dir c) then skip_after des ids skip r
+      else if reusable des ids c then skip_after des ids [] r
+      else skip_after des ids (skip_prefix_of (e_dir c)) r
+  end.
+
+Lemma reuse_scan_app : forall des ids a b skip,
+  reuse_scan des ids skip (a ++ b) = reuse_scan des ids skip a ++ reuse_scan des ids (skip_after des ids skip a) b.
+Proof.
+  induction a as [|x a IH]; intros b skip; [reflexivity|]. cbn [app reuse_scan skip_after].
+  destruct (negb (is_nil_b skip) && has_prefix skip (e_dir x)); [apply IH|].
+  destruct (reusable des ids x); [cbn [app]; rewrite IH; reflexivity | apply IH].
+Qed.
+
+Lemma scan_ids : forall des ids l skip i, In i (reuse_scan des ids skip l) -> In i (map id_of l).
+Proof. intros des ids l skip i H. apply reuse_scan_sound in H as (c & Hc & <- & _). apply in_map. exact Hc. Qed.
+
+Lemma scan_skip_run : forall des ids l2 rest skip, is_nil_b skip = false ->
+  (forall x, In x l2 -> has_prefix skip (e_dir x) = true) ->
+  reuse_scan des ids skip (l2 ++ rest) = reuse_scan des ids skip rest.
+Proof.
+  induction l2 as [|x l2 IH]; intros rest skip Hs H; [reflexivity|]. cbn [app reuse_scan].
+  rewrite Hs, (H x (or_introl eq_refl)). cbn [negb andb]. apply IH; [exact Hs|]. intros y Hy. apply H. right. exact Hy.
+Qed.
+
+Lemma skip_prefix_nonnil : forall d, is_nil_b (skip_prefix_of d) = false.
+Proof. intro d. unfold skip_prefix_of. destruct (if has_suffix_slash d then removelast d else d); reflexivity. Qed.
+
+Lemma NoDup_app_disjoint : forall {A} (a b : list A) x, NoDup (a ++ b) -> In x a -> In x b -> False.
+Proof.
+  intros A a b x. induction a as [|y a IH]; intros ND Ha Hb; [destruct Ha|]. cbn [app] in ND. inversion ND; subst.
+  destruct Ha as [-> | Ha]; [apply H1; apply in_or_app; right; exact Hb | apply IH; assumption].
+Qed.
+
+Lemma NoDup_app_r' : forall {A} (a b : list A), NoDup (a ++ b) -> NoDup b.
+Proof. intros A a b. induction a as [|x a IH]; intro H; [exact H|]. cbn [app] in H. inversion H; subst. apply IH. assumption. Qed.
+
+(* the scan: if everything between p and c, and c itself, lies beneath p, and p is not marked, then c is not marked *)
+Lemma scan_no_mark_beneath : forall des ids l1 p l2 c l3 skip0,
+  NoDup (map id_of (l1 ++ p :: l2 ++ c :: l3)) ->
+  (forall x, In x l2 -> has_prefix (skip_prefix_of (e_dir p)) (e_dir x) = true) ->
+  has_prefix (skip_prefix_of (e_dir p)) (e_dir c) = true ->
+  ~ In (id_of p) (reuse_scan des ids skip0 (l1 ++ p :: l2 ++ c :: l3)) ->
+  ~ In (id_of c) (reuse_scan des ids skip0 (l1 ++ p :: l2 ++ c :: l3)).
+Proof.
+  intros des ids l1 p l2 c l3 skip0 ND H2 Hc Hp Hin.
+  rewrite reuse_scan_app in Hp, Hin. set (s1 := skip_after des ids skip0 l1) in *.
+  rewrite map_app in ND.
+  assert (Hlater : forall l, In (id_of c) (map id_of l) -> (forall y, In y l -> In y l3) -> False).
+  { intros l Hl Hsub. apply in_map_iff in Hl as (y & Ey & Hy).
+    (* id_of c occurs at c and again at y in l3 *)
+    apply NoDup_app_r' in ND. cbn [map] in ND. inversion ND as [|? ? _ ND2]; subst.
+    rewrite map_app in ND2. apply NoDup_app_r' in ND2. cbn [map] in ND2. inversion ND2 as [|? ? Hn _]; subst.
+    apply Hn. rewrite <- Ey. apply in_map. apply Hsub. exact Hy. }
+  apply in_app_or in Hin as [Hin | Hin].
+  - apply scan_ids in Hin. eapply (NoDup_app_disjoint _ _ (id_of c) ND); [exact Hin|].
+    cbn [map]. right. rewrite map_app. apply in_or_app. right. left. reflexivity.
+  - cbn [reuse_scan] in Hin, Hp.
+    destruct (negb (is_nil_b s1) && has_prefix s1 (e_dir p)) eqn:E1.
+    + apply andb_true_iff in E1 as [N1 P1]. apply negb_true_iff in N1.
+      assert (T : forall d, has_prefix (skip_prefix_of (e_dir p)) d = true -> has_prefix s1 d = true).
+      { intros d Hd. eapply has_prefix_trans; [|exact Hd]. eapply has_prefix_trans; [exact P1|].
+        rewrite <- with_slash_skip. apply dir_prefix_of_key. }
+      rewrite scan_skip_run in Hin by (auto). cbn [reuse_scan] in Hin. rewrite N1, (T _ Hc) in Hin. cbn [negb andb] in Hin.
+      apply scan_ids in Hin. apply (Hlater l3 Hin). auto.
+    + destruct (reusable des ids p) eqn:R.
+      * apply Hp. apply in_or_app. right. left. reflexivity.
+      * rewrite scan_skip_run in Hin by (auto using skip_prefix_nonnil). cbn [reuse_scan] in Hin.
+        rewrite skip_prefix_nonnil, Hc in Hin. cbn [negb andb] in Hin.
+        apply scan_ids in Hin. apply (Hlater l3 Hin). auto.
+Qed.
+
+Lemma NoDup_map_comp : forall {A B C} (f : A -> B) (h : B -> C) l, NoDup (map (fun x => h (f x)) l) -> NoDup (map f l).
+Proof.
+  intros A B C f h l. induction l as [|x l IH]; intros H; [constructor|]. cbn [map] in *. inversion H; subst.
+  constructor; [|apply IH; assumption]. intro Hx. apply H2. apply in_map_iff in Hx as (y & E & Hy).
+  apply in_map_iff. exists y. split; [rewrite E; reflexivity | exact Hy].
+Qed.
+
+(* If an entry of the current profile is not kept (it is unmounted), then no entry beneath it is kept either, provided
+   the two are on the same side of the overname boundary (the current entries are scanned overname-first) and no two
+   current entries share a sort key. *)
+Theorem no_keep_beneath_unmounted : forall fs current desired p c,
+  let cur := map clean_entry current in
+  NoDup (map sort_key cur) -> In p cur -> In c cur ->
+  is_overname p = is_overname c -> beneath c p = true -> sort_key p <> sort_key c ->
+  ~ In (Keep, p) (needed_changes fs current desired) ->
+  ~ In (Keep, c) (needed_changes fs current desired).
+Proof.
+  intros fs current desired p c cur NDk Hp Hc Hcls B Hne Hnk Hk.
+  assert (Mp : ~ In (id_of p) (reuse_of current desired)).
+  { intro M. apply Hnk. unfold needed_changes. apply in_or_app. left. apply keep_in_part. split; [exact Hp | apply id_mem_In; exact M]. }
+  assert (Mc : In (id_of c) (reuse_of current desired)).
+  { unfold needed_changes in Hk. apply in_app_or in Hk as [Hk | Hk]; [|exfalso; eapply keep_not_in_mounts; exact Hk].
+    apply keep_in_part in Hk as [_ M]. apply id_mem_In. exact M. }
+  unfold reuse_of in Mp, Mc. fold cur in Mp, Mc.
+  set (des := isort less_origin (map clean_entry desired)) in *. set (ids := map x_entry_id des) in *.
+  set (sorted := isort less_overname cur) in *.
+  assert (L : less_overname p c = true).
+  { rewrite less_overname_rank. unfold rk. rewrite Hcls, N.eqb_refl. rewrite (beneath_dir_lt c p B Hne). apply orb_true_r. }
+  destruct (isort_precedes less_overname less_overname_asym less_overname_negtrans cur p c Hp Hc L) as (l1 & l2 & l3 & ES).
+  fold sorted in ES.
+  assert (NDs : NoDup (map sort_key sorted)).
+  { eapply Permutation_NoDup; [apply Permutation_map, Permutation_sym, isort_perm | exact NDk]. }
+  rewrite ES in Mp, Mc, NDs.
+  revert Mc. apply scan_no_mark_beneath; [| | exact B | exact Mp].
+  - apply (NoDup_map_comp id_of (fun i => with_slash (fst i))). exact NDs.
+  - intros x Hx. apply in_split in Hx as (m1 & m2 & ->).
+    assert (P1 : precedes p x sorted) by (exists l1, m1, (m2 ++ c :: l3); rewrite ES; repeat rewrite <- app_assoc; cbn [app]; repeat rewrite <- app_assoc; reflexivity).
+    assert (P2 : precedes x c sorted).
+    { exists (l1 ++ p :: m1), m2, l3. rewrite ES. repeat rewrite <- app_assoc. cbn [app]. repeat rewrite <- app_assoc. reflexivity. }
+    apply (isort_sorted_pair less_overname less_overname_asym less_overname_negtrans) in P1, P2.
+    rewrite less_overname_rank in P1, P2. apply orb_false_iff in P1 as [A1 A2]. apply orb_false_iff in P2 as [B1 B2].
+    assert (Erk : rk p = rk c) by (unfold rk; rewrite Hcls; reflexivity).
+    assert (rk x =? rk p = true) as E1 by lia. assert (rk c =? rk x = true) as E2 by lia.
+    rewrite E1 in A2. rewrite E2 in B2. cbn [andb] in A2, B2. unfold dir_lt in A2, B2.
+    apply has_prefix_split in B as (r & EB).
+    assert (Kc : exists r', with_slash (e_dir c) = with_slash (e_dir p) ++ r').
+    { rewrite <- with_slash_skip in EB. unfold with_slash at 1. rewrite EB.
+      destruct (has_suffix_slash (with_slash (e_dir p) ++ r)); [exists r; reflexivity | exists (r ++ [slash]); rewrite app_assoc; reflexivity]. }
+    destruct Kc as (r' & Kc). rewrite Kc in B2.
+    pose proof (blt_interval_prefix _ _ _ A2 B2) as Pk.
+    rewrite <- with_slash_skip. apply key_prefix_beneath; [| exact Pk |].
+    + destruct (with_slash_shape (e_dir p)) as (X & E & _). exists X. exact E.
+    + (* keys of p and x differ: they sit at different places of a list without duplicate keys *)
+      intro Ek. rewrite map_app in NDs. cbn [map] in NDs. apply NoDup_remove_2 in NDs. apply NDs.
+      apply in_or_app. right. rewrite !map_app. apply in_or_app. left. apply in_or_app. right. left.
+      unfold sort_key. symmetry. exact Ek.
+Qed.
+
 From Coq Require Import String.
 
 Lemma result_profile_shadowed_refuted :
@@ -880,4 +1103,27 @@ Proof.
   - left. reflexivity.
   - cbn. intuition discriminate.
   - cbn. intros [H | [H | []]]; inversion H.
+Qed.
+
+(* across the overname boundary the statement is false: the overname entry /a/b is scanned before its parent /a *)
+Lemma no_keep_beneath_unmounted_overname_refuted :
+  exists fs current desired p c,
+    NoDup (map sort_key (map clean_entry current)) /\ In p (map clean_entry current) /\ In c (map clean_entry current) /\
+    beneath c p = true /\ sort_key p <> sort_key c /\
+    ~ In (Keep, p) (needed_changes fs current desired) /\ In (Keep, c) (needed_changes fs current desired).
+Proof.
+  set (a := mkEntry (bs "/s/src"%string) (bs "/a"%string) (bs "none"%string) [bs "bind"%string] 0 0).
+  set (a' := mkEntry (bs "/s/src"%string) (bs "/a"%string) (bs "none"%string) [bs "bind"%string; bs "noatime"%string] 0 0).
+  set (ab := mkEntry (bs "/s/src"%string) (bs "/a/b"%string) (bs "none"%string) [bs "bind"%string; bs "x-snapd.origin=overname"%string] 0 0).
+  set (fs := mkFs [bs "/"%string; bs "/a"%string; bs "/a/b"%string] [] []).
+  exists fs, [a; ab], [a'; ab], a, ab.
+  assert (E : needed_changes fs [a; ab] [a'; ab] =
+              [(Keep, ab); (Unmount, set_opts a [bs "bind"%string; bs "x-snapd.detach"%string]); (Mount, a')]) by (vm_compute; reflexivity).
+  rewrite E. repeat split.
+  - cbn. repeat constructor; cbn; intuition discriminate.
+  - left. reflexivity.
+  - right. left. reflexivity.
+  - vm_compute. discriminate.
+  - cbn. intros [H | [H | [H | []]]]; inversion H.
+  - left. reflexivity.
 Qed.
